@@ -248,8 +248,8 @@ def run_schedule(payload, rnd=None):
 
 class C20(Prop):
     id = 'C20'
-    quick_cases = 300
-    thorough_cases = 10000
+    quick_cases = 1000
+    thorough_cases = 40000
     rule = ('the real AsyncRunner (threading / time of sismic.runner.runner replaced by cooperative shims with a yield '
             'point at every flag operation, hook, sleep, join, final test and execute_once) is run under random '
             'deterministic schedules against 1–2 client threads executing random programs of start / queue / pause / '
